@@ -1,7 +1,7 @@
 (* Properties/C16.v -- Macro 05/06 compaction and GS1 start are exact and lossless (the parts that are theorems). *)
 From Coq Require Import Arith NArith List Bool.
 From DM Require Import Generated.Symbols Generated.ModeTables Model.Outcome Model.SymbolList Model.Planner Model.Enc Model.Dec
-  Model.Api Spec.Stream16022 Proofs.EncLocal Proofs.EncTop Proofs.DecMacro Proofs.DecScript Proofs.EncAscii Proofs.MacroAscii.
+  Model.Api Spec.Stream16022 Proofs.EncLocal Proofs.EncTop Proofs.DecMacro Proofs.DecScript Proofs.EncAscii Proofs.MacroAscii Proofs.EncAB.
 Import ListNotations.
 Local Open Scope N_scope.
 
@@ -82,8 +82,31 @@ Theorem C16_fnc1_roundtrip_ascii_only : forall sorter data symbols use_macros cw
 Proof. exact fnc1_ascii_roundtrip. Qed.
 Print Assumptions C16_fnc1_roundtrip_ascii_only.
 
-(* NOT a theorem here: that the body decodes to itself under the other plans (the round trip through the six mode encoders and the
-   decoder) -- decided per case by the correspondence + reference decoder, see DESIGN.md. *)
+(* (vi) the same for every mode set within {ASCII, Base256} (the sets {ASCII}, {Base256}, {ASCII, Base256}), whatever plan the
+   optimiser returns: the stream is the header codeword followed by a legal script of ASCII runs and Base256 fields spelling
+   the body, and the decoder returns the whole message (Proofs/EncAB.v with a header codeword + C04) *)
+Theorem C16_macro_roundtrip_ab : forall sorter data symbols modes body m head cw s,
+  (forall k l l', sorter symbols k l = Ok l' -> incl l' l) ->
+  (forall mo, enabled modes mo = true -> mo = Ascii \/ mo = Base256) -> bytes_ok body = true ->
+  (m = 236 /\ head = MACRO05_HEAD) \/ (m = 237 /\ head = MACRO06_HEAD) ->
+  data = head ++ body ++ MACRO_TRAIL ->
+  encode_data_internal (optimize_fn sorter) data symbols None modes true false = Ok (cw, s) ->
+  (exists script npad, script_ok script npad = true /\ cw = stream_with m script npad /\ meaning script = body /\ Forall ab_seg script) /\
+  decode_data cw = Ok data.
+Proof. exact macro_ab_roundtrip. Qed.
+Print Assumptions C16_macro_roundtrip_ab.
+
+Theorem C16_fnc1_roundtrip_ab : forall sorter data symbols modes use_macros cw s,
+  (forall k l l', sorter symbols k l = Ok l' -> incl l' l) ->
+  (forall mo, enabled modes mo = true -> mo = Ascii \/ mo = Base256) -> bytes_ok data = true ->
+  encode_data_internal (optimize_fn sorter) data symbols None modes use_macros true = Ok (cw, s) ->
+  (exists script npad, script_ok script npad = true /\ cw = stream_with 232 script npad /\ meaning script = data /\ Forall ab_seg script) /\
+  decode_data cw = Ok data.
+Proof. exact fnc1_ab_roundtrip. Qed.
+Print Assumptions C16_fnc1_roundtrip_ab.
+
+(* NOT a theorem here: that the body decodes to itself under the plans that use C40, Text, X12 or EDIFACT (the round trip through
+   those mode encoders and the decoder) -- decided per case by the correspondence + reference decoder + certificate, see DESIGN.md. *)
 
 (* the hypotheses are satisfiable: the bare header is returned verbatim, an enveloped message is stripped *)
 Example C16_example_bare_header :
